@@ -1,6 +1,7 @@
 import TracklibVerif.Lemmas.TextIOGpx
 import TracklibVerif.Lemmas.TextIOAll
 import TracklibVerif.Lemmas.TextIOGpxAF
+import TracklibVerif.Lemmas.TextIOWktFile
 /-! # C13 — tracks and networks written to file are read back unchanged
 
 Theorems about the model `TV.TextIO` (`Model/TextIO.lean`), which mirrors
@@ -365,6 +366,28 @@ theorem wkt_vertex_value (d : Nat) (p : Pt) :
 
 /-- what `parseWkt` works on: `wkt.upper()` of the exported text is the same text with the exponent marker `E` -/
 theorem wkt_upper (d : Nat) (pts : List Pt) : toUpper (toWKT d pts) = toWKTE 'E' d pts := toUpper_toWKT d pts
+
+/-- **WKT file** `wkt_file_roundtrip`: tracks exported with `toWKT` and stored one per line in a csv file — `uid sep tid sep
+"LINESTRING(…)"`, the layout `TrackReader.readFromWkt(path, 2, 0, 1, sep, h, doublequote=…)` reads; with or without a header line,
+with or without an empty line after every track, either value of `doublequote` — come back as the same number of tracks in the
+same order, each with its user id, its track id and every vertex with the planimetric coordinates written (`wkt_vertex_value`).
+tracklib has no writer for this layout: the file is the one a user writes with `sep.join`. Identifiers free of the separator, the
+quote and end-of-line characters; at least one vertex per track; the separator is not the quote or an end-of-line character (it
+MAY be the comma or the blank: the WKT text is quoted). -/
+theorem wkt_file_roundtrip (dq : Bool) (sep : Char) (hsep : sep ≠ '"') (hs : sep ≠ '\n' ∧ sep ≠ '\r') (hdr blank : Bool) (d : Nat)
+    (tracks : List (Str × Str × List Pt)) (hok : ∀ t ∈ tracks, WTrackOK sep t) :
+    readWktFile ⟨2, 0, 1, sep, if hdr then 1 else 0, dq⟩ (wktFile sep hdr true blank 2 0 1 d tracks)
+      = .ok (tracks.map (expWTrack d)) :=
+  TV.TextIO.wkt_file_roundtrip dq sep hsep hs hdr blank d tracks hok
+
+/-- a two-track file with a header line and blank lines, separator `,` (the WKT text is quoted), one ordinate in exponent notation -/
+example : wktFile ',' true true true 2 0 1 5 [("u1".toList, "t0".toList, [(150000, -225000), (1, 0)]), ("u2".toList, "t1".toList, [(0, 500000)])]
+      = "user,track,wkt\nu1,t0,\"LINESTRING(1.5 -2.25,1e-05 0.0)\"\n\nu2,t1,\"LINESTRING(0.0 5.0)\"\n\n".toList
+    ∧ (readWktFile ⟨2, 0, 1, ',', 1, false⟩ (wktFile ',' true true true 2 0 1 5
+        [("u1".toList, "t0".toList, [(150000, -225000), (1, 0)]), ("u2".toList, "t1".toList, [(0, 500000)])])).toOption
+      = some [⟨some "u1".toList, some "t0".toList, [((15, 1), (-225, 2), (0, 0)), ((1, 5), (0, 1), (0, 0))]⟩,
+              ⟨some "u2".toList, some "t1".toList, [((0, 1), (50, 1), (0, 0))]⟩] := by decide +kernel
+example : WTrackOK ',' ("u1".toList, "t0".toList, [(150000, -225000)]) := by unfold WTrackOK IdOK; decide
 
 /-- **`repr_value`**: `float(str(x))` for `x = ±mag / 10^d` of any magnitude: the text — positional, or in exponent notation
 with the marker `e` (as written) or `E` (after `str.upper()`) — is accepted by `float()` and the decimal read back has the
